@@ -569,19 +569,59 @@ func (h *hist) opProbeExpiry() {
 	if len(up) > 1 && h.rng.Intn(3) == 0 {
 		e = up[h.rng.Intn(min(len(up), 4))]
 	}
-	before := e.at.Add(-time.Second)
+	// one second on either side of the expiry, sometimes only 600 ms (still outside the 0.5 s
+	// band in which the verdict is open)
+	// one second on either side of the expiry, sometimes only 600 ms (still outside the 0.5 s band
+	// in which the verdict is open). Requests can be less than a second apart, so expiries are not
+	// aligned to whole seconds relative to each other: a probe instant must also keep clear of the
+	// open band of every *other* expiry, or this expiry is not probed now.
+	clear := func(off time.Duration) bool {
+		if time.Until(e.at) < off+time.Second {
+			return false
+		}
+		for _, u := range up {
+			if u == e {
+				continue
+			}
+			for _, at := range []time.Time{e.at.Add(-off), e.at.Add(off)} {
+				if d := u.at.Sub(at); d > -800*time.Millisecond && d < 800*time.Millisecond {
+					return false
+				}
+			}
+		}
+
+		return true
+	}
+	offs := []time.Duration{time.Second, 600 * time.Millisecond}
+	if h.rng.Intn(3) == 0 {
+		offs = []time.Duration{600 * time.Millisecond, time.Second}
+	}
+	off := time.Duration(0)
+	for _, o := range offs {
+		if clear(o) {
+			off = o
+
+			break
+		}
+	}
+	if off == 0 {
+		h.rec.Ev("probe-expiry-skipped/crowded")
+
+		return
+	}
+	before := e.at.Add(-off)
 	if d := time.Until(before); d > 0 {
-		h.rec.Tracef("-- advance %v to 1s before %s expiry of %s", d, e.what, e.c.Name)
+		h.rec.Tracef("-- advance %v to %v before %s expiry of %s", d, off, e.what, e.c.Name)
 		h.w.Sleep(d)
 	}
 	h.m.Audit(nil)
 	h.m.CrossCheck()
 	h.probeClient(e.c)
-	after := e.at.Add(time.Second)
+	after := e.at.Add(off)
 	if d := time.Until(after); d > 0 {
 		h.w.Sleep(d)
 	}
-	h.rec.Tracef("-- now 1s after %s expiry of %s", e.what, e.c.Name)
+	h.rec.Tracef("-- now %v after %s expiry of %s", off, e.what, e.c.Name)
 	h.m.Audit(nil)
 	h.m.CrossCheck()
 	h.probeClient(e.c)
@@ -607,7 +647,9 @@ func (h *hist) opTime() {
 		}
 	}
 	var d time.Duration
-	switch h.rng.Intn(5) {
+	switch h.rng.Intn(6) {
+	case 5:
+		d = time.Duration(300+h.rng.Intn(650)) * time.Millisecond // less than a second between two requests
 	case 0:
 		d = time.Duration(1+h.rng.Intn(30)) * time.Second
 	case 1:
